@@ -462,35 +462,43 @@ func runHist(a []string, shared bool) string {
 	return strings.Join(out, " ") + " | " + sv.Table()
 }
 
-// RunStale is the runner of a "stale" case: cfg tokens, home bits and netfilter bits of an earlier
-// run whose lease file (no leases) is still there, then the ops.
-func RunStale(a []string) string {
-	c, rest := ParseCfg(a)
-	hb, err1 := strconv.Atoi(rest[0])
-	nb, err2 := strconv.Atoi(rest[1])
-	if err1 != nil || err2 != nil {
-		panic("bad stale bits")
+// CloseKeep ends the server but leaves its lease file in place; returns the file name.
+func (sv *Server) CloseKeep() string {
+	sv.H.Close()
+	go sv.S.Close()
+	return sv.file
+}
+
+// SplitBar splits the ops of a restart case at the "|" token.
+func SplitBar(a []string) (before, after []string) {
+	for i, x := range a {
+		if x == "|" {
+			return a[:i], a[i+1:]
+		}
 	}
-	sv := NewStaleServer(c, hb, nb)
+	return a, nil
+}
+
+// RunRestart is the runner of a "restart" case: CFG_A CFG_B opsA | opsB.  A handler of configuration A
+// runs opsA and is closed; a handler of configuration B is constructed on the lease file it left and
+// runs opsB.  Observation: transcript and lease table of the second run.
+func RunRestart(a []string) string {
+	cA, rest := ParseCfg(a)
+	cB, rest := ParseCfg(rest)
+	opsA, opsB := SplitBar(rest)
+	svA := NewServer(cA)
+	svA.Shared = make([]byte, packet.EthMaxSize)
+	for _, o := range opsA {
+		svA.Step(o)
+	}
+	file := svA.CloseKeep()
+	sv := NewServerFile(cB, file)
 	sv.Shared = make([]byte, packet.EthMaxSize)
 	defer sv.Close()
-	ops := rest[2:]
-	out := make([]string, 0, len(ops))
-	for _, o := range ops {
+	out := make([]string, 0, len(opsB))
+	for _, o := range opsB {
 		s, _ := sv.Step(o)
 		out = append(out, s)
 	}
 	return strings.Join(out, " ") + " | " + sv.Table()
-}
-
-// NewStaleServer: a handler of configuration c started on the lease file an earlier handler with
-// prefix lengths hb/nb (same addresses) left behind.
-func NewStaleServer(c Cfg, hb, nb int) *Server {
-	old := c
-	old.HomeBits, old.NfBits = hb, nb
-	sv0 := NewServer(old) // Config.New saves the file
-	file := sv0.file
-	sv0.H.Close()
-	go sv0.S.Close()
-	return NewServerFile(c, file)
 }
